@@ -27,7 +27,7 @@ import (
 )
 
 func TestEngine(t *testing.T) {
-	vh.Main(t, map[string]func(*vh.Runner){"C03": genC03, "C15": genC15})
+	vh.Main(t, map[string]func(*vh.Runner){"C03": genC03, "C15": genC15, "C14": genC14})
 }
 
 var marker = []byte("HOPVERIFMSGMARK!")
